@@ -3,15 +3,30 @@
 package webrtc
 
 import (
+	"github.com/pion/interceptor"
 	verif "github.com/pion/webrtc/v4/internal/zzverif"
 )
+
+func verifLocalParams(g *ICEGatherer) (ICEParameters, error) {
+	return ICEParameters{UsernameFragment: "localufrag", Password: "localpasswordlocalpassword", ICELite: false}, nil
+}
+
+func verifFingerprints(c Certificate) ([]DTLSFingerprint, error) {
+	return []DTLSFingerprint{{Algorithm: "sha-256", Value: "AA:BB:CC:DD"}}, nil
+}
+
+func verifLocalCands(g *ICEGatherer) ([]ICECandidate, error) { return nil, nil }
 
 func VerifTryPC() {
 	m := &MediaEngine{}
 	verif.Assert(m.RegisterDefaultCodecs() == nil, "codecs")
-	api := NewAPI(WithMediaEngine(m))
+	api := NewAPI(WithMediaEngine(m), WithInterceptorRegistry(&interceptor.Registry{}))
 	pc, err := api.NewPeerConnection(Configuration{Certificates: []Certificate{{statsID: "cert"}}})
 	verif.Assert(err == nil && pc != nil, "constructed")
-	verif.Assert(pc.SignalingState() == SignalingStateStable, "stable")
+	_, err = pc.AddTransceiverFromKind(RTPCodecTypeVideo)
+	verif.Assert(err == nil, "transceiver")
+	offer, err := pc.CreateOffer(nil)
+	verif.Assert(err == nil, "offer")
+	verif.ObserveStr("sdp", offer.SDP)
 	verif.Reach("done")
 }
